@@ -55,6 +55,13 @@ func runC17(r *Run) {
 			if !okc && (strings.Contains(owner, "/migrations/") || strings.HasPrefix(owner, "app/upgrades/")) {
 				okc = true
 			}
+			// the per-block reset: BeginBlock may write the transient counter, but only the constant zero
+			if !okc && ci.Name == "SetTransientBlockGasWanted" && owner == "(*"+fk+".Keeper).BeginBlock" {
+				a := ci.Instr.Common().Args
+				if z, isZ := constInt(a[len(a)-1]); isZ && z == 0 {
+					okc = true
+				}
+			}
 			r.Check(okc, "R1", owner+"#"+ci.Name, P.Pos(instrPos(ci.Instr)), "confirmed writer", "feemarket "+ci.Name+" is called from "+owner+", which is not one of its confirmed callers: the base fee / block gas figure would have a second writer")
 		})
 	}
@@ -612,6 +619,53 @@ func runC17(r *Run) {
 			})
 			r.Floor("R9", "divisions by the gas target", nDiv, 2)
 		}
+	}
+	r.Rule("R11", "PATH.declared-gas-counts-from-zero + SHAPE.floor-not-rounded-down: (a) the transient declared-gas counter is reset by the SDK at Commit — but InitChain does not commit, and baseapp reuses InitChain's deliver state (with the gas the genesis transactions declared) for the first block: BeginBlock therefore sets the counter to the constant zero on every path before anything else reads it; (b) the minimum gas price is a decimal and transactions are admitted against the exact decimal, so the integer floor CalculateBaseFee applies to the base fee is its ceiling (Ceil before the integer conversion) — a floor rounded down lets the base fee settle below the configured minimum")
+	if bb, ok := P.FnOK("(*" + fk + ".Keeper).BeginBlock"); ok {
+		isReset := func(in ssa.Instruction) bool {
+			c, ok := in.(ssa.CallInstruction)
+			if !ok || callInfo(c).Name != "SetTransientBlockGasWanted" {
+				return false
+			}
+			a := c.Common().Args
+			z, isZ := constInt(a[len(a)-1])
+			return isZ && z == 0
+		}
+		w := PathQuery{Fn: bb, Block: isReset, Target: func(in ssa.Instruction) bool {
+			if _, ok := in.(*ssa.Return); ok {
+				return true
+			}
+			c, ok := in.(ssa.CallInstruction)
+			return ok && callInfo(c).Name == "CalculateBaseFee"
+		}}.Search()
+		r.Check(w == nil, "R11", fnID(bb)+"#declared-gas-reset", P.Pos(fnPos(bb)), "SetTransientBlockGasWanted(ctx, 0) before CalculateBaseFee and every return",
+			"BeginBlock does not reset the transient declared-gas counter: the gas limits of the genesis transactions (delivered during InitChain, whose state the first block inherits) are booked as the first block's gas figure and move the second block's base fee", P.witness(w)...)
+	} else {
+		r.Bad("R11", "anchor/feemarket BeginBlock", "", "not found")
+	}
+	{
+		nConv, bad := 0, ""
+		eachCall(cb, func(ci CallInfo) {
+			switch ci.Name {
+			case "TruncateInt", "RoundInt", "TruncateInt64", "RoundInt64", "BigInt":
+			default:
+				return
+			}
+			if ci.Recv != "LegacyDec" && ci.Recv != "Dec" {
+				return
+			}
+			recv := ci.Instr.Common().Args[0]
+			sl := backSlice(recv)
+			if !sl.HasField("Params", "MinGasPrice") {
+				return
+			}
+			nConv++
+			if !sl.HasCall(func(g CallInfo) bool { return g.Name == "Ceil" }) {
+				bad = ci.Name + " at " + P.Pos(instrPos(ci.Instr))
+			}
+		})
+		r.Check(bad == "" && nConv >= 1, "R11", fnID(cb)+"#floor-is-the-ceiling-of-the-minimum", P.Pos(fnPos(cb)), "MinGasPrice is converted to an integer only after Ceil()",
+			"CalculateBaseFee converts the decimal minimum gas price to its integer floor with "+bad+" (rounding down): with a fractional minimum the base fee settles one unit below it, where the ante handler — which compares with the exact decimal — rejects a transaction paying exactly the base fee")
 	}
 	// R8: the block's declared-gas counter is a plain running sum
 	r.Rule("R8", "SHAPE.declared-gas-is-a-plain-sum: AddTransientGasWanted stores GetTransientGasWanted() + gasWanted itself — the declared gas of a block's transactions may legitimately exceed the block gas limit (the limit bounds gas used), so a counter that saturates at the limit caps the figure at the target and the base fee never rises")
